@@ -257,10 +257,20 @@ func checkWriterFault(r *evid.Run, pool *wproto.Pool, s *ioState, c *tok.Conc, r
 			continue
 		}
 		rq := fillReq(rt, s.Items, c)
+		// the dry-run sinks also with colours on (what a program on a terminal has): every other state
+		if strings.HasPrefix(rt.sink, "dry") && s.N%2 == 1 {
+			rq.Color = true
+		}
 		free := pool.Call(rq, 30*time.Second)
 		r.Count("real_calls", 1)
 		if free.Class != "ok" {
 			r.Mismatch(rt.name+":fault-free-run-failed", fmt.Sprintf("doc=%q items=%s: %s %s", rq.Doc, itemsString(s.Items), free.Class, free.Err), ioReplay{s.Items, rt.name, rq, free})
+			continue
+		}
+		// the output goes to the writer the call was given, all of it ("unless every byte of the output was accepted by
+		// THE writer"): nothing may turn up at the colour package's process-wide writer instead
+		if free.Stray != "" || (free.Out == "" && len(s.Items) > 0) {
+			r.Mismatch(rt.name+":output-went-to-another-writer", fmt.Sprintf("doc=%q items=%s: the writer given to the call received %q, color.Output received %q", rq.Doc, itemsString(s.Items), free.Out, free.Stray), ioReplay{s.Items, rt.name, rq, free})
 			continue
 		}
 		// Layer M: the number of Write calls the model predicts (massive mode and From-Root walk one root)
